@@ -205,6 +205,51 @@ def _concurrency_sim(limit):
   return (out.get('first'), out.get('second'), second_waited, tuple(h.order))
 
 
+_RETRY_OPTIONS = (('grpc.enable_retries', 1), ('grpc.service_config', '{"methodConfig": [{"name": [{}], "retryPolicy": {'
+                  '"maxAttempts": 3, "initialBackoff": "0.05s", "maxBackoff": "0.2s", "backoffMultiplier": 2, '
+                  '"retryableStatusCodes": ["UNAVAILABLE", "UNKNOWN"]}}]}'))
+
+
+class _FailsFirst(vs_grpc.VizierServiceServicer):
+  """Raises on its first `k` invocations, then answers."""
+
+  def __init__(self, k):
+    self.k = k
+    self.calls = 0
+
+  def CreateStudy(self, request, context):  # pylint: disable=invalid-name
+    self.calls += 1
+    if self.calls <= self.k:
+      raise ValueError('transient')
+    return study_pb2.Study(name='ok')
+
+
+def _retries_real(k):
+  h = _FailsFirst(k)
+  port = portpicker.pick_unused_port()
+  server = grpc.server(futures.ThreadPoolExecutor(max_workers=2))
+  vs_grpc.add_VizierServiceServicer_to_server(h, server)
+  server.add_insecure_port(f'localhost:{port}')
+  server.start()
+  channel = grpc.insecure_channel(f'localhost:{port}', options=_RETRY_OPTIONS)
+  grpc.channel_ready_future(channel).result(timeout=20)
+  out = _observe(vs_grpc.VizierServiceStub(channel).CreateStudy, _req('x'))[:2]
+  channel.close()
+  server.stop(0)
+  return (out, h.calls)
+
+
+def _retries_sim(k):
+  net = simnet.Net()
+  h = _FailsFirst(k)
+  server = simnet.SimServer(net)
+  vs_grpc.add_VizierServiceServicer_to_server(h, server)
+  server.add_insecure_port('sim:r')
+  server.start()
+  stub = vs_grpc.VizierServiceStub(simnet.SimChannel(net, 'sim:r', options=_RETRY_OPTIONS))
+  return (_observe(stub.CreateStudy, _req('x'))[:2], h.calls)
+
+
 def run():
   """Returns a summary dict; raises SystemExit(2) on mismatch."""
   real = _real()
@@ -212,6 +257,9 @@ def run():
   for limit in (None, 1):
     real.append(('concurrency-limit-%s' % limit, _concurrency_real(limit)))
     sim.append(('concurrency-limit-%s' % limit, _concurrency_sim(limit)))
+  for k in (0, 1, 2, 5):
+    real.append(('channel-retries-fail-first-%d' % k, _retries_real(k)))
+    sim.append(('channel-retries-fail-first-%d' % k, _retries_sim(k)))
   mismatches = [(a, b) for a, b in zip(real, sim) if a != b]
   if mismatches or len(real) != len(sim):
     print('HARNESS-ERROR: simnet calibration mismatch against real loopback gRPC:')
